@@ -1,0 +1,12 @@
+//go:build verif
+
+package vm
+
+// C03: no script or source text ends the process by exhausting the native stack. Every function of this package that
+// lies on a cycle of the package's call graph (static calls, closures, interface calls resolved by method name inside
+// the
+// package) is listed here; a new one - a helper that calls itself - has to be added with the reason it terminates
+// (seed C03i: a recursive integer power whose exponent never reaches zero for negative values, `2 ** -1` killed the
+// process). Why the listed ones terminate: eval -> callFunction / callObject / importModule -> eval: one VM frame per
+// level, at most MaxFrameDepth (1024) frames (activateFunction refuses the next one); Call enters the same cycle.
+//@ scan[C03.recursion.vm] C03 recursive vm: (*VirtualMachine).Call (*VirtualMachine).callFunction (*VirtualMachine).callFunction$callFunction$1 (*VirtualMachine).callObject (*VirtualMachine).eval (*VirtualMachine).importModule
